@@ -151,7 +151,7 @@ fn model_def(id: &'static str, generate: fn(u64, u64, Tier) -> Value, exec: fn(&
         exec,
         steps: "/steps",
         runs: |t| match t {
-            Tier::Quick => 4000,
+            Tier::Quick => 12_000,
             Tier::Thorough => 400_000,
         },
         wall_cap_s: |t| match t {
@@ -179,7 +179,7 @@ pub fn all() -> Vec<CheckDef> {
         exec: c13_exec,
         steps: "/steps",
         runs: |t| match t {
-            Tier::Quick => 6000,
+            Tier::Quick => 30_000,
             Tier::Thorough => 600_000,
         },
         wall_cap_s: |t| match t {
@@ -199,7 +199,7 @@ pub fn all() -> Vec<CheckDef> {
         exec: c32_exec,
         steps: "/suffix",
         runs: |t| match t {
-            Tier::Quick => 1500,
+            Tier::Quick => 15_000,
             Tier::Thorough => 40_000,
         },
         wall_cap_s: |t| match t {
@@ -219,7 +219,7 @@ pub fn all() -> Vec<CheckDef> {
         exec: c19_exec,
         steps: "/steps",
         runs: |t| match t {
-            Tier::Quick => 1500,
+            Tier::Quick => 8000,
             Tier::Thorough => 60_000,
         },
         wall_cap_s: |t| match t {
@@ -239,7 +239,7 @@ pub fn all() -> Vec<CheckDef> {
         exec: c05_exec,
         steps: "/steps",
         runs: |t| match t {
-            Tier::Quick => 3000,
+            Tier::Quick => 8000,
             Tier::Thorough => 300_000,
         },
         wall_cap_s: |t| match t {
@@ -259,7 +259,7 @@ pub fn all() -> Vec<CheckDef> {
         exec: c06_exec,
         steps: "/steps",
         runs: |t| match t {
-            Tier::Quick => 1500,
+            Tier::Quick => 6000,
             Tier::Thorough => 150_000,
         },
         wall_cap_s: |t| match t {
@@ -299,7 +299,7 @@ pub fn all() -> Vec<CheckDef> {
         exec: c23_exec,
         steps: "/reads",
         runs: |t| match t {
-            Tier::Quick => 400,
+            Tier::Quick => 4000,
             Tier::Thorough => 8000,
         },
         wall_cap_s: |t| match t {
@@ -329,7 +329,7 @@ fn all_storage() -> Vec<CheckDef> {
         exec: c01_exec,
         steps: "/ops",
         runs: |t| match t {
-            Tier::Quick => 3000,
+            Tier::Quick => 40_000,
             Tier::Thorough => 150_000,
         },
         wall_cap_s: |t| match t {
@@ -352,7 +352,7 @@ fn all_storage() -> Vec<CheckDef> {
         exec: c04_exec,
         steps: "/ops",
         runs: |t| match t {
-            Tier::Quick => 20_000,
+            Tier::Quick => 100_000,
             Tier::Thorough => 1_000_000,
         },
         wall_cap_s: |t| match t {
